@@ -32,6 +32,7 @@
 #include <cstdio>
 #include <iostream>
 #include <map>
+#include <set>
 #include <sstream>
 #include <vector>
 namespace sg4 = simgrid::s4u;
@@ -54,6 +55,7 @@ static std::map<std::string, sg4::Disk*> disks;
 static std::map<std::string, sg4::VirtualMachine*> vms; // live VMs only
 static std::map<int, sg4::ActorPtr> latest; // script -> most recent incarnation still alive (dropped at its termination)
 static std::vector<sg4::ActorPtr> graveyard;
+static std::set<long> doomed; // pids the scripts themselves killed (directly or by turning their host off): left alone afterwards
 static std::vector<sg4::ActivityPtr> maestro_acts;
 static long executed_ops = 0;
 static const long BUDGET = 800;
@@ -182,11 +184,13 @@ static void body(int k)
         spawn(std::stoi(t[1]), h);
       } else if (n == "kill" || n == "suspend" || n == "resume" || n == "join") {
         auto it = latest.find(std::stoi(t[1])); // only live actors are in there: nothing is done on a terminated actor
-        if (it == latest.end() || it->second.get() == self.get())
+        if (it == latest.end() || it->second.get() == self.get() || doomed.count(it->second->get_pid()))
           continue;
         sg4::ActorPtr a = it->second;
-        if (n == "kill")
+        if (n == "kill") {
+          doomed.insert(a->get_pid());
           a->kill();
+        }
         else if (n == "suspend")
           a->suspend();
         else if (n == "resume")
@@ -203,12 +207,17 @@ static void body(int k)
       } else if (n == "migrateother") { // migrateother <k> <host>
         auto it      = latest.find(std::stoi(t[1]));
         sg4::Host* h = host_or_vm(t[2]);
-        if (it == latest.end() || it->second.get() == self.get() || h == nullptr || not h->is_on())
+        if (it == latest.end() || it->second.get() == self.get() || h == nullptr || not h->is_on() ||
+            doomed.count(it->second->get_pid()))
           continue;
         it->second->set_host(h);
       } else if (n == "exit") {
         sg4::this_actor::exit();
       } else if (n == "hostoff") {
+        for (auto const& [k2, a] : latest)
+          if (a->get_host() == hosts.at(t[1]) || (a->get_host() != nullptr && dynamic_cast<sg4::VirtualMachine*>(a->get_host()) != nullptr &&
+                                                  static_cast<sg4::VirtualMachine*>(a->get_host())->get_pm() == hosts.at(t[1])))
+            doomed.insert(a->get_pid());
         hosts.at(t[1])->turn_off();
       } else if (n == "hoston") {
         hosts.at(t[1])->turn_on();
@@ -232,6 +241,10 @@ static void body(int k)
           continue;
         sg4::VirtualMachine* vm = it->second;
         auto st                 = vm->get_state();
+        if (n == "vmshutdown" || n == "vmdestroy")
+          for (auto const& [k2, a] : latest)
+            if (a->get_host() == vm && a.get() != self.get())
+              doomed.insert(a->get_pid());
         using S                 = sg4::VirtualMachine::State;
         if (n == "vmstart") {
           if (st == S::CREATED && vm->get_pm()->is_on())
